@@ -325,6 +325,121 @@ static void c05_case(Ctx & c, const std::vector<double> & av, bool inv_ok)
   }
 }
 
+// ------------------------------------------------------------------ C06
+// Bundle: every operation on the bundle next to the same operation on each part<i>() (free-function interface,
+// so that vector parts are handled too); the spec arranges the parts as tuple / block diagonal.
+template<typename T>
+static std::string part_vec_json(const T & v)
+{
+  std::string o;
+  qvec(o, v);
+  return o;
+}
+template<typename T>
+static std::string part_mat_json(const T & m)
+{
+  std::string o;
+  qmat(o, m);
+  return o;
+}
+template<typename P>
+static Eigen::Matrix<S, Desc<P>::Rep, 1> part_coeffs(const P & p)
+{
+  Eigen::Matrix<S, Desc<P>::Rep, 1> c;
+  Desc<P>::get(p, c.data());
+  return c;
+}
+
+static void c06_case(Ctx & c, const std::vector<double> & c1, const std::vector<double> & c2, const std::vector<double> & av, bool inv_ok)
+{
+  if constexpr (requires { G::BundleSize; }) {
+    const G g1 = from_coeffs(c1), g2 = from_coeffs(c2);
+    const Tan a = to_tan(av);
+    auto emit = [&](const char * sub, const std::string & out, const std::string & parts) {
+      auto e = c.ev("bparts");
+      e.str("sub", sub).raw("out", out).raw("parts", parts);
+      c.sink.emit(e);
+    };
+    auto for_parts = [&](auto && fn) {
+      std::string s = "[";
+      smooth::utils::static_for<G::BundleSize>([&](auto i) {
+        if (i.value > 0) s += ',';
+        s += fn(i);
+      });
+      return s + "]";
+    };
+    // element-valued operations: coefficient tuples
+    emit("compose", part_vec_json(coeffs_of(smooth::composition(g1, g2))), for_parts([&](auto i) {
+           using P = typename G::template PartType<i.value>;
+           const P p1 = g1.template part<i.value>(), p2 = g2.template part<i.value>();
+           return part_vec_json(part_coeffs<P>(smooth::composition(p1, p2)));
+         }));
+    emit("inverse", part_vec_json(coeffs_of(smooth::inverse(g1))), for_parts([&](auto i) {
+           using P = typename G::template PartType<i.value>;
+           const P p1 = g1.template part<i.value>();
+           return part_vec_json(part_coeffs<P>(smooth::inverse(p1)));
+         }));
+    emit("exp", part_vec_json(coeffs_of(smooth::exp<G>(a))), for_parts([&](auto i) {
+           using P = typename G::template PartType<i.value>;
+           const Eigen::Matrix<S, G::template PartDof<i.value>, 1> ai = a.template segment<G::template PartDof<i.value>>(G::template PartStart<i.value>);
+           return part_vec_json(part_coeffs<P>(smooth::exp<P>(ai)));
+         }));
+    emit("log", part_vec_json(smooth::log(g1)), for_parts([&](auto i) {
+           using P = typename G::template PartType<i.value>;
+           const P p1 = g1.template part<i.value>();
+           return part_vec_json(smooth::log(p1));
+         }));
+    // matrix-valued operations: diagonal blocks
+    emit("Ad", part_mat_json(smooth::Ad(g1)), for_parts([&](auto i) {
+           using P = typename G::template PartType<i.value>;
+           const P p1 = g1.template part<i.value>();
+           return part_mat_json(smooth::Ad(p1));
+         }));
+#define VH_TAN_PART(NAME, EXPR_BUNDLE, EXPR_PART)                                                                              \
+  emit(NAME, part_mat_json(EXPR_BUNDLE), for_parts([&](auto i) {                                                               \
+         using P = typename G::template PartType<i.value>;                                                                     \
+         const Eigen::Matrix<S, G::template PartDof<i.value>, 1> ai =                                                          \
+           a.template segment<G::template PartDof<i.value>>(G::template PartStart<i.value>);                                   \
+         return part_mat_json(EXPR_PART);                                                                                      \
+       }));
+    VH_TAN_PART("ad", smooth::ad<G>(a), smooth::ad<P>(ai))
+    VH_TAN_PART("dr_exp", smooth::dr_exp<G>(a), smooth::dr_exp<P>(ai))
+    VH_TAN_PART("dl_exp", smooth::dl_exp<G>(a), smooth::dl_exp<P>(ai))
+    if (inv_ok) {
+      VH_TAN_PART("dr_expinv", smooth::dr_expinv<G>(a), smooth::dr_expinv<P>(ai))
+      VH_TAN_PART("dl_expinv", smooth::dl_expinv<G>(a), smooth::dl_expinv<P>(ai))
+    }
+    if constexpr (Dsc::HasHess) {
+      VH_TAN_PART("d2r_exp", smooth::d2r_exp<G>(a), smooth::d2r_exp<P>(ai))
+      if (inv_ok) { VH_TAN_PART("d2r_expinv", smooth::d2r_expinv<G>(a), smooth::d2r_expinv<P>(ai)) }
+    }
+#undef VH_TAN_PART
+  } else {
+    (void)c; (void)c1; (void)c2; (void)av; (void)inv_ok;
+  }
+}
+
+// vectors / scalars through the LieGroup interface: the additive group, exactly
+static void rn_case(Ctx & c, const std::vector<double> & c1, const std::vector<double> & c2)
+{
+  if constexpr (!kIsBase) {
+    const G g1 = from_coeffs(c1), g2 = from_coeffs(c2);
+    const Tan a = to_tan(c2);
+    auto e      = c.ev("rn");
+    e.vec("a", coeffs_of(g1)).vec("b", coeffs_of(g2));
+    e.vec("compose", coeffs_of(smooth::composition(g1, g2))).vec("inverse", coeffs_of(smooth::inverse(g1)));
+    e.vec("exp", coeffs_of(smooth::exp<G>(a))).vec("log", smooth::log(g1)).vec("identity", coeffs_of(smooth::Identity<G>()));
+    e.mat("Ad", smooth::Ad(g1)).mat("ad", smooth::ad<G>(a)).mat("dr_exp", smooth::dr_exp<G>(a)).mat("dr_expinv", smooth::dr_expinv<G>(a));
+    e.mat("dl_exp", smooth::dl_exp<G>(a)).mat("dl_expinv", smooth::dl_expinv<G>(a));
+    e.mat("d2r_exp", smooth::d2r_exp<G>(a)).mat("d2r_expinv", smooth::d2r_expinv<G>(a));
+    e.num("dof", static_cast<long>(smooth::dof(g1))).num("size", REP);
+    e.vec("rplus", coeffs_of(smooth::rplus(g1, a))).vec("rminus", smooth::rminus(g1, g2));
+    c.sink.emit(e);
+  } else {
+    (void)c; (void)c1; (void)c2;
+  }
+}
+
 // ------------------------------------------------------------------ driver
 
 static int main_(int argc, char ** argv)
@@ -463,6 +578,15 @@ static int main_(int argc, char ** argv)
     }
     if (!second) {
       for (long i = 0; i < n / 4 + 2; ++i) c04_action_case(c, gen.element(c.rng, static_cast<int>(i % kNumElemStrata), static_cast<int>(i % 3)));
+    }
+  } else if (fam == "c06") {
+    for (long i = 0; i < n; ++i) {
+      const int st = static_cast<int>(i % 9);   // theta <= pi - 1e-3 for every part (inverses defined)
+      auto c1 = gen.element(c.rng, static_cast<int>(i % kNumElemStrata), static_cast<int>(i / kNumElemStrata) % 3);
+      auto c2 = gen.element(c.rng, c.rng.idx(kNumElemStrata), c.rng.idx(3));
+      auto av = gen.tangent(c.rng, st, static_cast<int>(i / 9) % 3, static_cast<int>(i % 4), 9);
+      c06_case(c, c1, c2, av, true);
+      rn_case(c, c1, c2);
     }
   } else {
     std::fprintf(stderr, "unknown family %s\n", fam.c_str());
